@@ -27,6 +27,7 @@
 
 
 #include <xalanc/XalanDOM/XalanDocumentFragment.hpp>
+#include <xalanc/XalanDOM/XalanNamedNodeMap.hpp>
 
 
 
@@ -892,6 +893,42 @@ StylesheetRoot::getNodeSetByKey(
 
 
 
+// XSLT 1.0, section 3.4: a whitespace text node is preserved when the nearest
+// xml:space attribute on an ancestor element has the value "preserve".
+static bool
+isXMLSpacePreserved(const XalanNode*    theElement)
+{
+    while (theElement != 0 &&
+           theElement->getNodeType() == XalanNode::ELEMENT_NODE)
+    {
+        const XalanNamedNodeMap* const  theAttributes =
+                theElement->getAttributes();
+
+        const XalanNode* const  theSpaceAttribute =
+                theAttributes == 0 ? 0 : theAttributes->getNamedItem(Constants::ATTRNAME_XMLSPACE);
+
+        if (theSpaceAttribute != 0)
+        {
+            const XalanDOMString&   theValue = theSpaceAttribute->getNodeValue();
+
+            if (theValue == Constants::ATTRVAL_PRESERVE)
+            {
+                return true;
+            }
+            else if (theValue == Constants::ATTRVAL_DEFAULT)
+            {
+                return false;
+            }
+        }
+
+        theElement = theElement->getParentNode();
+    }
+
+    return false;
+}
+
+
+
 bool
 StylesheetRoot::internalShouldStripSourceNode(const XalanText&  textNode) const
 {
@@ -921,7 +958,8 @@ StylesheetRoot::internalShouldStripSourceNode(const XalanText&  textNode) const
 
             if (theTester(*theElement) != XPath::eMatchScoreNone)
             {
-                return theTester.getType() == XalanSpaceNodeTester::eStrip;
+                return theTester.getType() == XalanSpaceNodeTester::eStrip &&
+                       isXMLSpacePreserved(theElement) == false;
             }
 
             ++i;
